@@ -5,7 +5,8 @@ Open Scope Z_scope.
 (* an observed range: feature code, position the request was made at (-1 for position-free
    features), the range, and the text it is supposed to cover (None: no "covers" claim)
    features: 1 diagnostics  2 hover  3 prepareRename  4 documentSymbol  6 documentLink
-             7 references  8 definition  9 workspaceSymbol  10 completion edit  11 rename edit *)
+             7 references  8 definition  9 workspaceSymbol  10 completion edit  11 rename edit
+             13 documentSymbol selection range *)
 Record obs := mkObs { o_feat : N; o_pl : Z; o_pc : Z; o_rng : prange; o_text : option (list N); o_code : N }.
 Record case := mkCase { text : list N; impl_ast : journal (* every position the parser assigns *); observations : list obs; folds : list (Z * Z) }.
 
@@ -19,6 +20,7 @@ Definition tie_ok (c : case) : bool :=
       let obs_of f := filter (fun o => (o_feat o =? f)%N) (observations c) in
       journal_eqb j (impl_ast c) &&
       list_eqb pr_eqb (map o_rng (obs_of 4%N)) (doc_symbols j) &&
+      list_eqb pr_eqb (map o_rng (obs_of 13%N)) (doc_symbols j) &&      (* selection range = range *)
       list_eqb pr_eqb (map o_rng (obs_of 6%N)) (doc_links j) &&
       list_eqb (fun a b => (fst a =? fst b) && (snd a =? snd b)) (folds c) (folding_ranges (text c) j) &&
       list_eqb (fun a b => pr_eqb (fst a) (fst b) && (snd a =? snd b)%N)
